@@ -433,8 +433,12 @@ class ManifestContext:
                 continue
             assert mf.content_type == 'video'
             assert mf.representation.content_type == 'video'
+            if (video.representations and
+                    video.representations[0].track_id != mf.representation.track_id):
+                # e.g. the track ID of one of the files has been edited: it
+                # is another track, not a Representation of this one
+                continue
             video.representations.append(mf.representation)
-            assert video.representations[0].track_id == mf.representation.track_id
         video.compute_av_values()
         assert isinstance(video.representations, list)
         return video
